@@ -186,8 +186,9 @@ def print_assumptions(prop_id, theorems):
             if "Closed under the global context" in line:
                 res[cur]["closed"] = True
             else:
-                m = re.match(r"^([A-Za-z_][\w.']*)\s*:", line)
-                if m and not line.startswith("Axioms"):
+                # "name : type" on one line, or the bare name with the type on indented continuation lines
+                m = re.match(r"^([A-Za-z_][\w.']*)\s*(:|$)", line)
+                if m and not line.startswith("Axioms") and m.group(1) not in ("Axioms", "Opaque", "Transparent"):
                     res[cur]["axioms"].append(m.group(1))
     return res, ""
 
